@@ -86,6 +86,9 @@ type outcome struct {
 	lateEvents   []string
 	ctxErr       error
 	obtainedConn bool
+	// insd scenarios: the watcher was parked inside SetDeadline / Dial returned while it was still there
+	watcherParked bool
+	earlyReturn   bool
 }
 
 // peerScript installs the scripted server on c.
@@ -159,7 +162,7 @@ func runScenario(t *testing.T, s scen) (o outcome) {
 		c := newVconn()
 		peerScript(c, s)
 		gate := ""
-		if strings.HasPrefix(s.Place, "before:") || strings.HasPrefix(s.Place, "after:") {
+		if strings.HasPrefix(s.Place, "before:") || strings.HasPrefix(s.Place, "after:") { // (not the insd- places: they install their own gates)
 			gate = s.Place
 			c.gate(gate)
 		}
@@ -190,7 +193,32 @@ func runScenario(t *testing.T, s scen) (o outcome) {
 			resCh <- result{conn: cn, br: br, err: err, returnedAt: time.Since(start), snap: c.snap()}
 		}()
 		// ---- fire the event at the forced place
+		var early *result
 		switch {
+		case strings.HasPrefix(s.Place, "insd-"):
+			// third order: the watcher is INSIDE SetDeadline(past) - a slow system call - while the
+			// handshake I/O runs to its end (success, or a complete non-101 answer). Dial has to wait for it.
+			iogate := strings.TrimPrefix(s.Place, "insd-")
+			c.gate(iogate)
+			c.gate("sd")
+			synctest.Wait()
+			if c.isParked(iogate) {
+				cancel()
+				synctest.Wait()
+				o.watcherParked = c.isParked("sd")
+				c.release(iogate)
+				synctest.Wait() // everything that can run has run: Dial is waiting for the watcher, or has (wrongly) returned
+				if o.watcherParked {
+					select {
+					case r := <-resCh:
+						early = &r
+						o.earlyReturn = true
+					default:
+					}
+				}
+			}
+			c.release("sd")
+			c.release(iogate)
 		case gate != "":
 			synctest.Wait()
 			if c.isParked(gate) {
@@ -213,6 +241,9 @@ func runScenario(t *testing.T, s scen) (o outcome) {
 		}
 		// ---- wait for Dial under a virtual-time bound
 		limit := 2 * time.Hour
+		if early != nil {
+			resCh <- *early
+		}
 		select {
 		case o.res = <-resCh:
 		case <-time.After(limit):
@@ -280,6 +311,11 @@ func judge(c *mon.C, s scen, o outcome) bool {
 		}
 	} else if o.obtainedConn && !o.res.snap.closedByDial {
 		c.Fail("failure/not-closed/"+cls, "Dial returned an error without closing the connection it obtained: "+err.Error(), det())
+		return false
+	}
+	// R5': Dial does not return while the watcher goroutine is still inside a call on the connection
+	if o.earlyReturn {
+		c.Fail("returned-while-watcher-running/"+cls, fmt.Sprintf("Dial returned (err=%v) while the context watcher was still inside SetDeadline on the connection", err), det())
 		return false
 	}
 	// R2: never touched again
@@ -450,6 +486,20 @@ func buildScenarios(t *testing.T) []scen {
 						s = sil
 						s.CtxKind, s.CtxDeadline, s.Timeout = "withdeadline", time.Second, 3*time.Second
 						scenList = append(scenList, s)
+					}
+					// G: cancel with the watcher parked inside SetDeadline while the handshake I/O completes (101 and non-101 answers)
+					for _, pk := range []string{"responsive", "non101"} {
+						for i := 0; i < k; i++ {
+							for _, pl := range []string{"before", "after"} {
+								s := base
+								s.CtxKind, s.CtxDeadline, s.Event, s.Place, s.Peer = []string{"withcancel", "withdeadline"}[i%2], far, "cancel", fmt.Sprintf("insd-%s:%d", pl, i), pk
+								scenList = append(scenList, s)
+								if i == k-1 {
+									s.Timeout = far // the Timeout-derived context takes the same path
+									scenList = append(scenList, s)
+								}
+							}
+						}
 					}
 					// non-101 answers
 					for _, ck := range ctxAll {
@@ -629,7 +679,7 @@ func TestMonitor(t *testing.T) {
 	spec := &mon.Spec{
 		Property: "C20",
 		Level:    "exploration",
-		Rule: "forced orders in VIRTUAL time (testing/synctest bubble, go1.26.8, -race): a fake net.Conn with real deadline semantics, gates that park any I/O operation before it starts or after it finished, a scripted peer (responsive in 1/2/5 chunks, slow = one chunk per virtual second, silent from chunk j, non-101) and a full event log. Scenario list (fixed, ~900): cancel forced before and after EVERY I/O operation of the handshake (operation count taken from a dry run; write buffers giving 1-3 writes; ws and wss with a TLSClient stub) for cancel and deadline contexts; cancel while blocked on a silent peer; context deadline and Dialer.Timeout shorter/longer than the other or alone for Background/TODO/WithValue/WithCancel/WithDeadline contexts against silent and slow peers; expiry in the dial phase; cancel after Dial returned; non-101 answers; no event at all. " +
+		Rule: "forced orders in VIRTUAL time (testing/synctest bubble, go1.26.8, -race): a fake net.Conn with real deadline semantics, gates that park any I/O operation before it starts or after it finished, a scripted peer (responsive in 1/2/5 chunks, slow = one chunk per virtual second, silent from chunk j, non-101) and a full event log. Scenario list (fixed, ~900): cancel forced before and after EVERY I/O operation of the handshake (operation count taken from a dry run; write buffers giving 1-3 writes; ws and wss with a TLSClient stub) for cancel and deadline contexts; cancel while blocked on a silent peer; context deadline and Dialer.Timeout shorter/longer than the other or alone for Background/TODO/WithValue/WithCancel/WithDeadline contexts against silent and slow peers; expiry in the dial phase; cancel after Dial returned; non-101 answers; no event at all; cancel at every I/O operation with the watcher goroutine parked INSIDE its SetDeadline call (a slow system call) while the handshake I/O runs to its end with a 101 or a non-101 answer: Dial must still be waiting for it. " +
 			"Oracle per scenario: nil error => live conn, deadlines cleared; error => obtained conn closed; no conn method after return (3 virtual hours later); context ended before the I/O finished (forced) => errors.Is(err, ctx.Err()); return no later than min(context end, start+Timeout) on silent/slow peers; no spurious failure; no goroutine left blocked in the bubble (synctest deadlock detector). Plus the unforced race under the real scheduler (cancel after a PRNG-chosen spin), invariants only, outcome histogram in the evidence. distinct = (context kind, event@place, peer, timeout, outcome).",
 		Assumptions: []string{"virtual time: no wall-clock value decides anything", "when cancellation races with completion (after the last I/O operation) either outcome is accepted, only the invariants are checked"},
 		HangSeconds: 300,
@@ -640,6 +690,13 @@ func TestMonitor(t *testing.T) {
 				Do: func(c *mon.C) {
 					s := buildScenarios(t)[c.I]
 					o := runScenario(t, s)
+					if strings.HasPrefix(s.Place, "insd-") {
+						if o.watcherParked {
+							c.Run.AddExtra("scenarios_with_watcher_parked_inside_SetDeadline", 1)
+						} else {
+							c.Run.AddExtra("insd_scenarios_where_the_watcher_never_reached_SetDeadline", 1)
+						}
+					}
 					if judge(c, s, o) {
 						c.Sample(map[string]interface{}{"scenario": s.String(), "err": fmt.Sprint(o.res.err), "returned_at_virtual": o.res.returnedAt.String(), "conn_events": len(o.log)})
 					}
